@@ -35,7 +35,11 @@ def prepare(task, d, variant):
     variant 2: as variant 0, the output path is requested without its .rtdc
     suffix (the task appends it; the output path is the corrected one)"""
     nosuffix = variant == 2
-    if nosuffix:
+    # variant 3: as variant 0, the output is requested next to the input
+    # under the input's own stem with another suffix ("in.tmp"): the task
+    # appends .rtdc, the output path is in.tmp.rtdc - not the input
+    sibling = variant == 3
+    if nosuffix or sibling:
         variant = 0
 
     def req(p):
@@ -86,7 +90,10 @@ def prepare(task, d, variant):
                 cli.split(path_in=p, path_out=d, split_events=size,
                           verbose=False)
         else:
-            outs = [d / "out.rtdc"]
+            outs = [d / ("in.tmp.rtdc" if sibling else "out.rtdc")]
+            if sibling:
+                def req(p_):    # noqa: F811
+                    return d / "in.tmp"
 
             def run():
                 from dclab import cli
@@ -177,6 +184,9 @@ def _task_case(job):
         in_sha = {p: sha(p) for p in ins}
         rep = d / "report.json"
         rc = child(run, roles, None, None, rep)
+        if any(not p.exists() for p in ins):
+            return info, [("input file removed by " + task,
+                           "variant %s" % info["variant"])], None
         if rc != 0 or not rep.exists():
             return info, [("fault-free run of %s fails" % task, "rc=%s" % rc)
                           ], None
@@ -276,8 +286,10 @@ def main(tier, seed, replay=None):
     root = tlc.scratch_dir("vp_c10_")
     try:
         jobs = [(t, v, root, not q) for t in TASKS
-                for v in ((0, 2) if q else (0, 1, 2))
-                if not (t == "split" and v == 2)]
+                for v in ((0, 2, 3) if q else (0, 1, 2, 3))
+                if not (t == "split" and v == 2)
+                and not (v == 3 and t not in ("compress", "repack",
+                                              "condense"))]
         traces = []
         n_inj = 0
         for info, viols, trace in par.pmap(_task_case, jobs, chunk=1):
